@@ -110,6 +110,8 @@ def run(ctx):
     chk.rule('A4O', 'no signed arithmetic on integers converted from input text without a dominating range check', floor=1)
     chk.rule('H1', 'every loop changes, on every way round, something one of its exit conditions depends on '
                    '(necessary for termination; not a termination proof)', floor=20)
+    chk.rule('A9', 'an automatic char array or malloc()ed buffer is written (store, or a callee that may write it) on every '
+                   'path before it is read (load, const-pointee / %s argument, strcat destination, reading callee)', floor=30)
     chk.rule('A5', 'results that may be NULL / buffers only valid on success are tested before use', floor=60)
     chk.rule('D1', 'derived facts the bounds rely on: the clamp of the length parser and the range of the two limits; '
                    'the INI line cap covers the fixed filter-name buffer', floor=4)
@@ -122,7 +124,7 @@ def run(ctx):
     chk.assumptions = ['invalid pointers and memory exhaustion are outside the domain',
                        'libc writers respect their size argument; snprintf returns the untruncated length (>= 0)',
                        'a string passed in by the caller is NUL-terminated inside its object']
-    chk.not_decided = ['termination proper (H1 decides only that no loop can spin without touching its exit condition)', 'uninitialised reads', 'UB kinds outside the rules',
+    chk.not_decided = ['termination proper (H1 decides only that no loop can spin without touching its exit condition)', 'uninitialised scalars (left to the compiler warnings the build already enables); initialisation of buffers at byte granularity (A9 decides whole-object written-before-read)', 'UB kinds outside the rules',
                        'over-reads through pointers whose object is not known to the analysis (argv/envp vectors, library results); loads from character objects of known extent are A4 obligations']
     prog = ctx.program(facts.AS_CONFIGURED, 'lib')
     cg = ctx.callgraph(facts.AS_CONFIGURED, 'lib')
@@ -260,6 +262,20 @@ def run(ctx):
                        's' if hit and len(hit[0]) != 1 else '', '; '.join(render(c)[:60] for c in hit[0]) if hit else ''),
                    how='every cycle assigns a variable of an exit condition, or the condition itself advances state')
     chk.count('loops_checked', nloops)
+    # ---- A9: buffers are written before they are read -------------------------------------------------
+    from engine.uninit import UninitAnalysis
+    ua = UninitAnalysis(prog)
+    for key, (f, _, _) in sorted(reach.items(), key=lambda kv: str(kv[0])):
+        seen9 = {}
+        for bname, node, bad in ua.analyse(f):
+            i = seen9.get(bname, 0)
+            seen9[bname] = i + 1
+            chk.ob('A9', 'written-before-read[%s:%s#%d]' % (f.name, bname, i), bad is None, (bad or node).where(), f.name,
+                   '%s is read by %s while, on some path from its declaration/allocation, nothing has been written to it: '
+                   'the bytes are indeterminate (stale stack or heap contents end up in the record, or the read runs past '
+                   'the buffer)' % (bname, render(bad)[:60] if bad is not None else ''),
+                   how='every load / const-pointee or %s use is preceded by a store or a writing callee on all paths')
+    chk.count('buffers_tracked', ua.buffers)
     # ---- A5 ---------------------------------------------------------------------------------------
     exc5 = load_exceptions('A5')
     na = NullAnalysis(prog, cg)
